@@ -7,7 +7,7 @@
     Module equalities are decided by [mod_ring]: the module is embedded into the trivial-extension
     ring F (+) G  ((a,x)(b,y) = (ab, a.y + b.x)), where [ring] applies.                              *)
 From Coq Require Import List Ring Lia Arith Bool ZArith.
-From CB Require Import Crypto.BpAlg Crypto.Ipa Crypto.RangeProof.
+From CB Require Import Crypto.BpAlg Crypto.Ipa Crypto.RangeProof Crypto.SetProof Crypto.RangeStmt Crypto.RangeStmtProofs.
 Import ListNotations.
 
 Section BpProofs.
@@ -356,6 +356,15 @@ Section BpProofs.
     - apply dot_app. rewrite (lo_length a h), (lo_length b h) by assumption. reflexivity.
   Qed.
 
+  Lemma msum_svec_step c d s P h : length s = h -> length P = 2 * h ->
+    msum (vscale c s ++ vscale d s) P = msum s (gvadd (gvscale c (lo P)) (gvscale d (hi P))).
+  Proof.
+    intros H1 H2.
+    rewrite (msum_scaled_split c d s (lo P) (hi P))
+      by (rewrite ?(lo_length P h), ?(hi_length P h); lia).
+    rewrite lo_hi_app. reflexivity.
+  Qed.
+
   (** * the inner-product argument *)
   Definition Pf (a b : list F) (Gs Hs : list G) (Q : G) : G :=
     gadd (gadd (msum a Gs) (msum b Hs)) (smul (dot a b) Q).
@@ -436,11 +445,8 @@ Section BpProofs.
       cbn [Ipa.svec]. rewrite rev_app_distr, !vscale_rev.
       pose proof (svec_length us) as Ls. fold h in Ls.
       assert (Lr : length (rev (svec us)) = h) by (rewrite rev_length; exact Ls).
-      rewrite <- (lo_hi_app Gs) at 2. rewrite <- (lo_hi_app Hs) at 2.
-      rewrite <- (msum_scaled_split ui u (svec us) (lo Gs) (hi Gs))
-        by (rewrite ?(lo_length Gs h), ?(hi_length Gs h); lia).
-      rewrite <- (msum_scaled_split u ui (rev (svec us)) (lo Hs) (hi Hs))
-        by (rewrite ?(lo_length Hs h), ?(hi_length Hs h); lia).
+      rewrite (msum_svec_step ui u (svec us) Gs h) by (assumption || lia).
+      rewrite (msum_svec_step u ui (rev (svec us)) Hs h) by (assumption || lia).
       change (gvadd (gvscale ui (lo Gs)) (gvscale u (hi Gs))) with (fold_G u ui Gs).
       change (gvadd (gvscale u (lo Hs)) (gvscale ui (hi Hs))) with (fold_H u ui Hs).
       rewrite <- IHc. rewrite (ipa_step u ui Gs Hs Q a b h) by (assumption || lia).
@@ -467,5 +473,475 @@ Section BpProofs.
     set (X2 := gadd (gadd (gadd (gadd (msum eG Gs) (msum eH Hs)) (smul eQ Q)) (msum eX Xs)) (lr_sum us lr)).
     match goal with |- ?lhs = g0 <-> _ => assert (E : lhs = gadd X1 (gopp X2)) by (unfold X1, X2; mod_ring) end.
     rewrite E, gsub_zero_iff. split; intro H; symmetry; exact H.
+  Qed.
+
+  (** * the bulletproof skeleton *)
+  Local Notation bp_prove := (bp_prove Ops).
+  Local Notation bp_accepts := (bp_accepts Ops).
+  Local Notation bp_verdict := (bp_verdict Ops).
+  Local Notation bp_t0 := (bp_t0 Ops).
+  Local Notation bp_t1 := (bp_t1 Ops).
+  Local Notation bp_t2 := (bp_t2 Ops).
+  Local Notation bp_l0 := (bp_l0 Ops).
+  Local Notation bp_r0 := (bp_r0 Ops).
+  Local Notation bp_r1 := (bp_r1 Ops).
+
+  Lemma dot_poly x : forall l0 l1 r0 r1,
+    length l1 = length l0 -> length r0 = length l0 -> length r1 = length l0 ->
+    dot (vadd l0 (vscale x l1)) (vadd r0 (vscale x r1))
+    = fadd (fadd (dot l0 r0)
+                 (fmul (fsub (fsub (dot (vadd l0 l1) (vadd r0 r1)) (dot l0 r0)) (dot l1 r1)) x))
+           (fmul (dot l1 r1) (fmul x x)).
+  Proof.
+    induction l0 as [|a l0 IH]; intros [|b l1] [|c r0] [|d r1] H1 H2 H3; cbn [length] in *; try discriminate.
+    - change (dot (vadd [] (vscale x [])) (vadd [] (vscale x []))) with f0.
+      change (dot (vadd [] []) (vadd [] [])) with f0. change (dot [] []) with f0. ring.
+    - vcons. rewrite IH by lia. ring.
+  Qed.
+
+  Definition inv_pairs (ys yis : list F) : Prop := Forall2 (fun a b => fmul a b = f1) ys yis.
+
+  Lemma powers_inv : forall n y yi c d, fmul y yi = f1 -> fmul c d = f1 ->
+    inv_pairs (powers_from y c n) (powers_from yi d n).
+  Proof.
+    induction n; intros y yi c d Hy Hc; cbn [BpAlg.powers_from]; constructor; [exact Hc|].
+    apply IHn; [exact Hy|]. transitivity (fmul (fmul c d) (fmul y yi)); [ring|]. rewrite Hy, Hc. ring.
+  Qed.
+
+  Lemma powers_length : forall n z c, length (powers_from z c n) = n.
+  Proof. induction n; intros; cbn [BpAlg.powers_from length]; [reflexivity | rewrite IHn; reflexivity]. Qed.
+
+  Lemma z_vec_length z f n : length (z_vec z f n) = n.
+  Proof. apply powers_length. Qed.
+
+  Lemma z_vec_inv n y yi : fmul y yi = f1 -> inv_pairs (z_vec y 0 n) (z_vec yi 0 n).
+  Proof. intros H. unfold BpAlg.z_vec. apply powers_inv; [exact H|]. cbn [BpAlg.fpow]. ring. Qed.
+
+  Lemma msum_cancel : forall ys yis, inv_pairs ys yis -> forall v Hs,
+    length v = length ys -> length Hs = length ys ->
+    msum (vmul ys v) (gvmul yis Hs) = msum v Hs.
+  Proof.
+    induction 1 as [|y yi ys yis Hy HF IH]; intros [|v0 v] [|h0 Hs] H1 H2; cbn [length] in *; try discriminate.
+    - reflexivity.
+    - vcons. rewrite IH by lia. f_equal. rewrite <- smul_mul. f_equal.
+      transitivity (fmul v0 (fmul y yi)); [ring|]. rewrite Hy. ring.
+  Qed.
+
+  Lemma inv_pairs_length ys yis : inv_pairs ys yis -> length yis = length ys.
+  Proof. induction 1; cbn [length]; lia. Qed.
+
+  Theorem bp_complete : forall Gs Hs B Bt aL aR sL sR at_ st t1t t2t cl cr e cvr y yi z x w us Vterm delta eH,
+    length Gs = Nat.pow 2 (length us) -> length Hs = length Gs ->
+    length aL = length Gs -> length aR = length Gs -> length sL = length Gs -> length sR = length Gs ->
+    length cl = length Gs -> length cr = length Gs -> length e = length Gs ->
+    fmul y yi = f1 -> invs_ok us ->
+    eH = vadd cr (vmul (z_vec yi 0 (length Gs)) e) ->
+    gadd (smul (bp_t0 (z_vec y 0 (length Gs)) aL aR cl cr e) B) (smul cvr Bt) = gadd Vterm (smul delta B) ->
+    bp_accepts Gs Hs B Bt
+      (bp_prove Gs Hs B Bt aL aR sL sR at_ st t1t t2t cl cr e cvr y yi z x w us)
+      Vterm delta cl eH yi x w us.
+  Proof.
+    intros Gs Hs B Bt aL aR sL sR at_ st t1t t2t cl cr e cvr y yi z x w us Vterm delta eH
+           HG HH HaL HaR HsL HsR Hcl Hcr He Hy Hus HeH Ht0.
+    set (N := length Gs) in *.
+    pose proof (z_vec_inv N y yi Hy) as Hinv.
+    pose proof (z_vec_length y 0 N) as LyN. pose proof (z_vec_length yi 0 N) as LyiN.
+    unfold RangeProof.bp_prove. fold N.
+    set (yN := z_vec y 0 N) in *. set (yiN := z_vec yi 0 N) in *.
+    set (l0 := bp_l0 aL cl). set (r0 := bp_r0 yN aR cr e). set (r1 := bp_r1 yN sR).
+    assert (Ll0 : length l0 = N) by (unfold l0, RangeProof.bp_l0; rewrite vadd_length; lia).
+    assert (Lr1 : length r1 = N) by (unfold r1, RangeProof.bp_r1; rewrite vmul_length; lia).
+    assert (Lac : length (vadd aR cr) = N) by (rewrite vadd_length; lia).
+    assert (Lyac : length (vmul yN (vadd aR cr)) = N) by (rewrite vmul_length; lia).
+    assert (Lr0 : length r0 = N) by (unfold r0, RangeProof.bp_r0; rewrite vadd_length; lia).
+    set (l := vadd l0 (vscale x sL)). set (r := vadd r0 (vscale x r1)).
+    assert (Ll : length l = N) by (unfold l; rewrite vadd_length; rewrite ?vscale_length; lia).
+    assert (Lr : length r = N) by (unfold r; rewrite vadd_length; rewrite ?vscale_length; lia).
+    set (Hp := gvmul yiN Hs).
+    assert (LHp : length Hp = N) by (unfold Hp; rewrite gvmul_length; lia).
+    destruct (ipa_prove us Gs Hp (smul w B) l r) as [[lr a] b] eqn:E.
+    destruct (ipa_prove_correct us Gs Hp (smul w B) l r Hus ltac:(lia) ltac:(lia) ltac:(lia) ltac:(lia) _ _ _ E)
+      as [Hchk Hlen].
+    unfold RangeProof.bp_accepts. split.
+    - unfold RangeProof.bp_eq1_lhs, RangeProof.bp_eq1_rhs. cbn [ptx ptxt pT1 pT2].
+      fold l0 r0 r1. change (RangeProof.bp_t0 Ops yN aL aR cl cr e) with (bp_t0 yN aL aR cl cr e) in *.
+      set (t0 := bp_t0 yN aL aR cl cr e) in *. set (t1 := bp_t1 yN aL aR sL sR cl cr e). set (t2 := bp_t2 yN sL sR).
+      transitivity (gadd (gadd (smul t0 B) (smul cvr Bt))
+                         (gadd (smul x (gadd (smul t1 B) (smul t1t Bt)))
+                               (smul (fmul x x) (gadd (smul t2 B) (smul t2t Bt))))); [mod_ring|].
+      rewrite Ht0. mod_ring.
+    - unfold RangeProof.bp_eq2_lhs. cbn [ptx pet pA pS plr pa pb]. fold N. fold yiN.
+      apply ipa_code_iff; try lia; [rewrite HeH; rewrite vadd_length; rewrite ?vmul_length; lia|].
+      fold Hp.
+      match goal with |- Ipa.ipa_check _ _ _ _ _ ?P _ _ _ => replace P with (Pf l r Gs Hp (smul w B)); [exact Hchk|] end.
+      unfold Pf.
+      (* t(x) = <l, r> *)
+      assert (Htx : dot l r = fadd (fadd (bp_t0 yN aL aR cl cr e) (fmul (bp_t1 yN aL aR sL sR cl cr e) x))
+                                   (fmul (bp_t2 yN sL sR) (fmul x x))).
+      { unfold l, r. rewrite dot_poly by (rewrite ?vscale_length; lia). reflexivity. }
+      rewrite Htx.
+      (* <l, G> *)
+      unfold l at 1. rewrite msum_vadd by (rewrite ?vscale_length; lia).
+      unfold l0 at 1, RangeProof.bp_l0. rewrite msum_vadd by lia. rewrite msum_vscale.
+      (* <r, H'> *)
+      unfold r at 1. rewrite msum_vadd by (rewrite ?vscale_length; lia).
+      unfold r0 at 1, RangeProof.bp_r0. rewrite msum_vadd by lia. rewrite msum_vscale.
+      unfold Hp at 1 2 3.
+      rewrite (msum_cancel yN yiN Hinv (vadd aR cr) Hs) by lia.
+      rewrite msum_vadd by lia.
+      rewrite (msum_gvmul yiN e Hs) by lia.
+      unfold r1 at 1, RangeProof.bp_r1.
+      rewrite (msum_cancel yN yiN Hinv sR Hs) by lia.
+      rewrite HeH. rewrite msum_vadd by (rewrite ?vmul_length; lia).
+      vcons. change (msum [] []) with g0.
+      mod_ring.
+  Qed.
+
+  (** the executable verifier returns Ok exactly when the two equations hold *)
+  Hypothesis feqb_spec : forall a b, feqb a b = true <-> a = b.
+  Hypothesis geqb_spec : forall a b, geqb a b = true <-> a = b.
+
+  Theorem bp_verdict_ok_iff : forall Gs Hs B Bt p Vterm delta eG eH y yi x w us,
+    bp_verdict Gs Hs B Bt p Vterm delta eG eH y yi x w us = VOk
+    <-> (bp_accepts Gs Hs B Bt p Vterm delta eG eH yi x w us /\ fmul y yi = f1 /\ invs_ok us).
+  Proof.
+    intros. unfold RangeProof.bp_verdict, RangeProof.bp_accepts, BpAlg.gsub.
+    destruct (geqb (gadd (RangeProof.bp_eq1_lhs Ops B Bt p) (gopp (RangeProof.bp_eq1_rhs Ops B p Vterm delta x))) g0) eqn:E1; cbn [negb].
+    2:{ split; [discriminate|]. intros [[H _] _]. apply (proj2 (gsub_zero_iff _ _)) in H. apply geqb_spec in H. congruence. }
+    apply geqb_spec in E1. apply (proj1 (gsub_zero_iff _ _)) in E1.
+    destruct (feqb (fmul y yi) f1) eqn:E2; cbn [negb].
+    2:{ split; [discriminate|]. intros [_ [H _]]. apply feqb_spec in H. congruence. }
+    apply feqb_spec in E2.
+    destruct (forallb (fun u => feqb (fmul (fst u) (snd u)) f1) us) eqn:E3; cbn [negb].
+    2:{ split; [discriminate|]. intros [_ [_ H]]. exfalso.
+        assert (forallb (fun u => feqb (fmul (fst u) (snd u)) f1) us = true); [|congruence].
+        apply forallb_forall. intros u Hu. apply feqb_spec. unfold invs_ok in H. rewrite Forall_forall in H. auto. }
+    assert (Hus : invs_ok us).
+    { unfold invs_ok. apply Forall_forall. intros u Hu. rewrite forallb_forall in E3. apply feqb_spec. auto. }
+    destruct (geqb (RangeProof.bp_eq2_lhs Ops Gs Hs B Bt p eG eH yi x w us) g0) eqn:E4.
+    - apply geqb_spec in E4. split; auto.
+    - split; [discriminate|]. intros [[_ H] _]. apply geqb_spec in H. congruence.
+  Qed.
+
+  (** * statement-specific part: t_0 = (weighted value) + delta *)
+  Definition is_bit (b : F) : Prop := b = f0 \/ b = f1.
+
+  Lemma t0_split yN aL aR cl cr e :
+    length (vmul yN (vadd aR cr)) = length (vadd aL cl) -> length e = length (vadd aL cl) ->
+    bp_t0 yN aL aR cl cr e
+    = fadd (dot (vadd aL cl) (vmul yN (vadd aR cr))) (dot (vadd aL cl) e).
+  Proof. intros H1 H2. unfold RangeProof.bp_t0, RangeProof.bp_l0, RangeProof.bp_r0. apply dot_vadd_r; assumption. Qed.
+
+  Lemma bits_part1 z : forall aL yN, Forall is_bit aL -> length yN = length aL ->
+    dot (vadd aL (vconst (fopp z) (length aL)))
+        (vmul yN (vadd (map (fun b => fsub b f1) aL) (vconst z (length aL))))
+    = fmul (fsub z (fmul z z)) (vsum yN).
+  Proof.
+    induction aL as [|b aL IH]; intros [|y0 yN] HF HL; cbn [length] in *; try discriminate.
+    - change (vsum []) with f0.
+      change (dot (vadd [] (vconst (fopp z) 0)) (vmul [] (vadd (map (fun b => fsub b f1) []) (vconst z 0)))) with f0. ring.
+    - inversion HF as [|? ? Hb HF']; subst. cbn [map]. vcons. rewrite IH by (auto; lia).
+      destruct Hb as [-> | ->]; ring.
+  Qed.
+
+  Lemma vadd_app : forall a b c d, length a = length c -> vadd (a ++ b) (c ++ d) = vadd a c ++ vadd b d.
+  Proof.
+    induction a as [|x a IH]; intros b [|y c] d H; cbn [length] in H; try discriminate.
+    - reflexivity.
+    - cbn [app]. vcons. rewrite IH by lia. reflexivity.
+  Qed.
+  Lemma vconst_add c a b : vconst c (a + b) = vconst c a ++ vconst c b.
+  Proof. unfold BpAlg.vconst. apply repeat_app. Qed.
+  Lemma dot_vconst_l' c k u : length u = k -> dot (vconst c k) u = fmul c (vsum u).
+  Proof. intros <-. apply dot_vconst_l. Qed.
+
+  (** ** range proofs *)
+  Local Notation two_n_vec := (two_n_vec Ops).
+  Local Notation fbits := (fbits Ops).
+  Local Notation fbit := (fbit Ops).
+  Local Notation range_aL := (range_aL Ops).
+  Local Notation range_aR := (range_aR Ops).
+  Local Notation range_e := (range_e Ops).
+  Local Notation zgeo := (zgeo Ops).
+  Local Notation zweighted := (zweighted Ops).
+  Local Notation gweighted := (gweighted Ops).
+  Local Notation range_prove := (range_prove Ops).
+  Local Notation range_accepts := (range_accepts Ops).
+  Local Notation range_delta := (range_delta Ops).
+  Local Notation range_eH := (range_eH Ops).
+
+  (** the scalar represented by the n low bits of v:  sum_i bit_i(v) 2^i  in F *)
+  Definition fval (n : nat) (v : Z) : F := dot (fbits v n) (two_n_vec n).
+
+  Lemma fbits_length v n : length (fbits v n) = n.
+  Proof. unfold RangeProof.fbits. rewrite map_length, seq_length. reflexivity. Qed.
+  Lemma two_n_length n : length (two_n_vec n) = n.
+  Proof. apply powers_length. Qed.
+  Lemma range_aL_length n vs : length (range_aL n vs) = n * length vs.
+  Proof.
+    induction vs as [|v vs IH]; cbn [RangeProof.range_aL flat_map length]; [lia|].
+    rewrite app_length, fbits_length. fold (range_aL n vs). rewrite IH. lia.
+  Qed.
+  Lemma range_e_length n z : forall m zc, length (range_e n zc z m) = n * m.
+  Proof.
+    induction m; intros zc; cbn [RangeProof.range_e length]; [lia|].
+    rewrite app_length, vscale_length, two_n_length, IHm. lia.
+  Qed.
+  Lemma fbits_bits v n : Forall is_bit (fbits v n).
+  Proof.
+    unfold RangeProof.fbits. apply Forall_forall. intros b Hb. apply in_map_iff in Hb.
+    destruct Hb as [i [<- _]]. unfold RangeProof.fbit, is_bit. destruct Z.testbit; auto.
+  Qed.
+  Lemma range_aL_bits n vs : Forall is_bit (range_aL n vs).
+  Proof.
+    induction vs as [|v vs IH]; cbn [RangeProof.range_aL flat_map]; [constructor|].
+    apply Forall_app. split; [apply fbits_bits | exact IH].
+  Qed.
+
+  Lemma zgeo_scale z c : forall m zc, zgeo (fmul zc c) z m = fmul c (zgeo zc z m).
+  Proof.
+    induction m; intros zc; cbn [RangeProof.zgeo]; [ring|].
+    replace (fmul (fmul zc c) z) with (fmul (fmul zc z) c) by ring. rewrite IHm. ring.
+  Qed.
+
+  Lemma range_part2 n z : forall vs zc,
+    dot (vadd (range_aL n vs) (vconst (fopp z) (n * length vs))) (range_e n zc z (length vs))
+    = fsub (zweighted zc z (map (fval n) vs))
+           (fmul (fmul z (vsum (two_n_vec n))) (zgeo zc z (length vs))).
+  Proof.
+    induction vs as [|v vs IH]; intros zc.
+    - cbn [length map RangeProof.zweighted RangeProof.zgeo RangeProof.range_e RangeProof.range_aL flat_map].
+      rewrite Nat.mul_0_r. change (dot (vadd [] (vconst (fopp z) 0)) []) with f0. ring.
+    - cbn [length map RangeProof.zweighted RangeProof.zgeo RangeProof.range_e RangeProof.range_aL flat_map].
+      fold (range_aL n vs).
+      replace (n * S (length vs)) with (n + n * length vs) by lia.
+      rewrite vconst_add.
+      rewrite vadd_app by (rewrite fbits_length, vconst_length; reflexivity).
+      rewrite dot_app by (rewrite vadd_length; rewrite ?vscale_length, ?fbits_length, ?two_n_length, ?vconst_length; reflexivity).
+      rewrite IH.
+      rewrite dot_vscale_r, dot_vadd_l by (rewrite ?fbits_length, ?vconst_length, ?two_n_length; reflexivity).
+      rewrite (dot_vconst_l' (fopp z) n (two_n_vec n)) by apply two_n_length.
+      fold (fval n v). ring.
+  Qed.
+
+  Lemma gweighted_commits z B Bt : forall vals rs zc, length rs = length vals ->
+    gweighted zc z (vzip (fun v r => gadd (smul v B) (smul r Bt)) vals rs)
+    = gadd (smul (zweighted zc z vals) B) (smul (zweighted zc z rs) Bt).
+  Proof.
+    induction vals as [|v vals IH]; intros [|r rs] zc H; cbn [length] in H; try discriminate.
+    - cbn. mod_ring.
+    - change (vzip (fun v r => gadd (smul v B) (smul r Bt)) (v :: vals) (r :: rs))
+        with (gadd (smul v B) (smul r Bt) :: vzip (fun v r => gadd (smul v B) (smul r Bt)) vals rs).
+      cbn [RangeProof.gweighted RangeProof.zweighted]. rewrite IH by lia. mod_ring.
+  Qed.
+
+  Lemma vadd_comm a b : vadd a b = vadd b a.
+  Proof.
+    revert b. induction a as [|x a IH]; intros [|y b]; try reflexivity.
+    vcons. rewrite IH. f_equal. ring.
+  Qed.
+
+  (** Completeness of the range proof: for every bit width n, every batch vs (any integers - only
+      their n low bits are used), all blinding factors and all challenges, the proof produced by
+      [range_prove] satisfies both verifier equations against the commitments to the values
+      represented by those bits.  (For 0 <= v < 2^n that value is v itself: [bits_iff_in_range].) *)
+  Theorem range_complete_l : forall n vs rs Gs Hs B Bt sL sR at_ st t1t t2t y yi z x w us,
+    let m := length vs in
+    length rs = m ->
+    length Gs = Nat.pow 2 (length us) -> length Gs = n * m -> length Hs = length Gs ->
+    length sL = length Gs -> length sR = length Gs ->
+    fmul y yi = f1 -> invs_ok us ->
+    range_accepts n (vzip (fun v r => gadd (smul v B) (smul r Bt)) (map (fval n) vs) rs) Gs Hs B Bt
+      (range_prove n vs rs Gs Hs B Bt sL sR at_ st t1t t2t y yi z x w us) y yi z x w us.
+  Proof.
+    intros n vs rs Gs Hs B Bt sL sR at_ st t1t t2t y yi z x w us m Hrs HG HN HH HsL HsR Hy Hus.
+    unfold RangeProof.range_accepts, RangeProof.range_prove. fold m.
+    assert (Lv : length (vzip (fun v r => gadd (smul v B) (smul r Bt)) (map (fval n) vs) rs) = m).
+    { rewrite vzip_length; rewrite map_length; [reflexivity | lia]. }
+    rewrite Lv.
+    pose proof (range_aL_length n vs) as LaL. fold m in LaL.
+    assert (LaR : length (range_aR (range_aL n vs)) = n * m) by (unfold RangeProof.range_aR; rewrite map_length; exact LaL).
+    pose proof (range_e_length n z m (fmul z z)) as Le.
+    apply bp_complete; rewrite ?vconst_length; try lia; try assumption.
+    - (* eH *) unfold RangeProof.range_eH. rewrite HN. apply vadd_comm.
+    - (* t_0 *)
+      rewrite HN.
+      pose proof (z_vec_length y 0 (n * m)) as LyN.
+      assert (L1 : length (vadd (range_aL n vs) (vconst (fopp z) (n * m))) = n * m)
+        by (rewrite vadd_length; rewrite ?vconst_length; lia).
+      assert (L2 : length (vadd (range_aR (range_aL n vs)) (vconst z (n * m))) = n * m)
+        by (rewrite vadd_length; rewrite ?vconst_length; lia).
+      assert (L3 : length (vmul (z_vec y 0 (n * m)) (vadd (range_aR (range_aL n vs)) (vconst z (n * m)))) = n * m)
+        by (rewrite vmul_length; lia).
+      rewrite t0_split by lia.
+      pose proof (bits_part1 z (range_aL n vs) (z_vec y 0 (n * m)) (range_aL_bits n vs) ltac:(lia)) as P1.
+      rewrite LaL in P1. unfold RangeProof.range_aR. rewrite P1.
+      unfold m. rewrite range_part2. fold m.
+      rewrite gweighted_commits by (rewrite map_length; lia).
+      unfold RangeProof.range_delta.
+      rewrite (zgeo_scale z z m (fmul z z)).
+      mod_ring.
+  Qed.
+  (** ** set membership *)
+  Local Notation indicator := (indicator Ops).
+  Local Notation memb := (memb Ops).
+  Local Notation fofnat := (fofnat Ops).
+  Local Notation mem_e := (mem_e Ops).
+  Local Notation mem_prove := (mem_prove Ops).
+  Local Notation mem_accepts := (mem_accepts Ops).
+  Local Notation nonmem_prove := (nonmem_prove Ops).
+  Local Notation nonmem_accepts := (nonmem_accepts Ops).
+
+  Lemma memb_In v s : memb v s = true <-> In v s.
+  Proof.
+    unfold SetProof.memb. rewrite existsb_exists. split.
+    - intros [x [Hx E]]. apply feqb_spec in E. subst. exact Hx.
+    - intros H. exists v. split; [exact H | apply feqb_spec; reflexivity].
+  Qed.
+
+  Lemma indicator_true_cons v a s : indicator v (a :: s) true = f0 :: indicator v s true.
+  Proof. reflexivity. Qed.
+  Lemma indicator_false_cons v a s :
+    indicator v (a :: s) false = if feqb v a then f1 :: indicator v s true else f0 :: indicator v s false.
+  Proof. reflexivity. Qed.
+
+  Lemma indicator_found v : forall s,
+    length (indicator v s true) = length s /\ Forall is_bit (indicator v s true)
+    /\ vsum (indicator v s true) = f0 /\ dot (indicator v s true) s = f0.
+  Proof.
+    induction s as [|a s IH].
+    - repeat split; try constructor.
+    - rewrite indicator_true_cons. cbn [length]. destruct IH as [L [B [S D]]]. repeat split.
+      + rewrite L. reflexivity.
+      + constructor; [left; reflexivity | exact B].
+      + vcons. rewrite S. ring.
+      + vcons. rewrite D. ring.
+  Qed.
+
+  Lemma indicator_spec v : forall s, memb v s = true ->
+    length (indicator v s false) = length s /\ Forall is_bit (indicator v s false)
+    /\ vsum (indicator v s false) = f1 /\ dot (indicator v s false) s = v.
+  Proof.
+    induction s as [|a s IH]; intros M.
+    - discriminate.
+    - rewrite indicator_false_cons. cbn [length]. unfold SetProof.memb in M. cbn [existsb] in M.
+      destruct (feqb v a) eqn:E; cbn [length].
+      + apply feqb_spec in E. subst a. destruct (indicator_found v s) as [L [B [S D]]]. repeat split.
+        * rewrite L. reflexivity.
+        * constructor; [right; reflexivity | exact B].
+        * vcons. rewrite S. ring.
+        * vcons. rewrite D. ring.
+      + cbn [orb] in M. destruct (IH M) as [L [B [S D]]]. repeat split.
+        * rewrite L. reflexivity.
+        * constructor; [left; reflexivity | exact B].
+        * vcons. rewrite S. ring.
+        * vcons. rewrite D. ring.
+  Qed.
+
+  Lemma mem_part2 z : forall aL s, length aL = length s ->
+    dot (vadd aL (vconst (fopp z) (length s))) (mem_e z s)
+    = fsub (fadd (fmul (fmul (fmul z z) z) (vsum aL)) (fmul (fmul z z) (dot aL s)))
+           (fmul z (fadd (fmul (fmul (fmul z z) z) (fofnat (length s))) (fmul (fmul z z) (vsum s)))).
+  Proof.
+    induction aL as [|a aL IH]; intros [|si s] H; cbn [length] in H; try discriminate.
+    - cbn. ring.
+    - unfold SetProof.mem_e, SetProof.fofnat in *. cbn [map length]. vcons. rewrite IH by lia. ring.
+  Qed.
+
+  Theorem mem_complete_l : forall set v vr Gs Hs B Bt sL sR at_ st t1t t2t y yi z x w us p,
+    mem_prove set v vr Gs Hs B Bt sL sR at_ st t1t t2t y yi z x w us = Some p ->
+    length Gs = Nat.pow 2 (length us) -> length Gs = length (pad_pow2 set) -> length Hs = length Gs ->
+    length sL = length Gs -> length sR = length Gs ->
+    fmul y yi = f1 -> invs_ok us ->
+    mem_accepts set (gadd (smul v B) (smul vr Bt)) Gs Hs B Bt p y yi z x w us.
+  Proof.
+    intros set v vr Gs Hs B Bt sL sR at_ st t1t t2t y yi z x w us p E HG HN HH HsL HsR Hy Hus.
+    unfold SetProof.mem_prove in E. unfold SetProof.mem_accepts.
+    set (s := pad_pow2 set) in *.
+    destruct (memb v s) eqn:M; [|discriminate]. injection E as <-.
+    destruct (indicator_spec v s M) as [L [Bb [S D]]].
+    assert (L4 : length (mem_e z s) = length s) by (unfold SetProof.mem_e; apply map_length).
+    apply bp_complete; rewrite ?vconst_length, ?map_length; try lia; try assumption.
+    - unfold SetProof.mem_eH. rewrite HN. reflexivity.
+    - rewrite HN.
+      pose proof (z_vec_length y 0 (length s)) as LyN.
+      assert (L1 : length (vadd (indicator v s false) (vconst (fopp z) (length s))) = length s)
+        by (rewrite vadd_length; rewrite ?vconst_length; lia).
+      assert (L2 : length (vadd (map (fun b => fsub b f1) (indicator v s false)) (vconst z (length s))) = length s)
+        by (rewrite vadd_length; rewrite ?map_length, ?vconst_length; lia).
+      assert (L3 : length (vmul (z_vec y 0 (length s)) (vadd (map (fun b => fsub b f1) (indicator v s false)) (vconst z (length s)))) = length s)
+        by (rewrite vmul_length; lia).
+      rewrite t0_split by lia.
+      pose proof (bits_part1 z (indicator v s false) (z_vec y 0 (length s)) Bb ltac:(lia)) as P1.
+      rewrite L in P1. rewrite P1.
+      rewrite mem_part2 by exact L. rewrite S, D.
+      unfold SetProof.mem_delta. mod_ring.
+  Qed.
+
+  Theorem mem_prove_some_iff : forall set v vr Gs Hs B Bt sL sR at_ st t1t t2t y yi z x w us,
+    (exists p, mem_prove set v vr Gs Hs B Bt sL sR at_ st t1t t2t y yi z x w us = Some p) <-> In v set.
+  Proof.
+    intros. unfold SetProof.mem_prove. rewrite <- (pad_pow2_In _ set v), <- memb_In.
+    destruct (memb v (pad_pow2 set)); split.
+    - reflexivity.
+    - intros _. eexists. reflexivity.
+    - intros [p E]; discriminate.
+    - discriminate.
+  Qed.
+
+  (** ** set non-membership *)
+  Lemma nonmem_t0 v z : forall s invs, Forall2 (fun si iv => fmul (fsub v si) iv = f1) s invs ->
+    forall yN, length yN = length s ->
+    dot (vadd invs (vconst z (length s)))
+        (vadd (vmul yN (vadd (vconst v (length s)) (map fopp s))) (vconst f0 (length s)))
+    = fadd (fmul (fmul z (vsum yN)) v) (fsub (vsum yN) (fmul z (dot s yN))).
+  Proof.
+    induction 1 as [|si iv s invs Hi HF IH]; intros [|y0 yN] HL; cbn [length map] in *; try discriminate.
+    - cbn. ring.
+    - vcons. rewrite IH by lia.
+      assert (K : fmul (fadd iv z) (fadd (fmul y0 (fadd v (fopp si))) f0)
+                  = fadd (fmul y0 (fmul (fsub v si) iv)) (fmul (fmul z y0) (fsub v si))) by ring.
+      rewrite K, Hi. ring.
+  Qed.
+
+  Lemma vadd_zero_r : forall a w, length w = length a -> vadd a (vmul w (vconst f0 (length a))) = a.
+  Proof.
+    induction a as [|x a IH]; intros [|w0 w] H; cbn [length] in *; try discriminate.
+    - reflexivity.
+    - vcons. rewrite IH by lia. f_equal. ring.
+  Qed.
+
+  Theorem nonmem_complete_l : forall set v vr invs Gs Hs B Bt sL sR at_ st t1t t2t y yi z x w us p,
+    nonmem_prove set v vr invs Gs Hs B Bt sL sR at_ st t1t t2t y yi z x w us = Some p ->
+    Forall2 (fun si iv => fmul (fsub v si) iv = f1) (pad_pow2 set) invs ->
+    length Gs = Nat.pow 2 (length us) -> length Gs = length (pad_pow2 set) -> length Hs = length Gs ->
+    length sL = length Gs -> length sR = length Gs ->
+    fmul y yi = f1 -> invs_ok us ->
+    nonmem_accepts set (gadd (smul v B) (smul vr Bt)) Gs Hs B Bt p y yi z x w us.
+  Proof.
+    intros set v vr invs Gs Hs B Bt sL sR at_ st t1t t2t y yi z x w us p E Hinv HG HN HH HsL HsR Hy Hus.
+    unfold SetProof.nonmem_prove in E. unfold SetProof.nonmem_accepts.
+    set (s := pad_pow2 set) in *.
+    destruct (memb v s) eqn:M; [discriminate|]. injection E as <-.
+    assert (Li : length invs = length s).
+    { clear -Hinv. induction Hinv; cbn [length]; lia. }
+    pose proof (z_vec_length yi 0 (length s)) as LyiN.
+    apply bp_complete; rewrite ?vconst_length, ?map_length; try lia; try assumption.
+    - rewrite HN. symmetry. rewrite <- (map_length fopp s) at 2. apply vadd_zero_r.
+      rewrite map_length. exact LyiN.
+    - rewrite HN. unfold RangeProof.bp_t0, RangeProof.bp_l0, RangeProof.bp_r0.
+      rewrite (nonmem_t0 v z s invs Hinv) by apply z_vec_length.
+      unfold SetProof.nonmem_delta. mod_ring.
+  Qed.
+
+  Theorem nonmem_prove_some_iff : forall set v vr invs Gs Hs B Bt sL sR at_ st t1t t2t y yi z x w us,
+    (exists p, nonmem_prove set v vr invs Gs Hs B Bt sL sR at_ st t1t t2t y yi z x w us = Some p) <-> ~ In v set.
+  Proof.
+    intros. unfold SetProof.nonmem_prove. rewrite <- (pad_pow2_In _ set v), <- memb_In.
+    destruct (memb v (pad_pow2 set)); split.
+    - intros [p E]; discriminate.
+    - intros H. exfalso. apply H. reflexivity.
+    - intros _. discriminate.
+    - intros _. eexists. reflexivity.
   Qed.
 End BpProofs.
